@@ -25,16 +25,18 @@ def r1_growth(ctx, f, rep):
             for e in p.calls():
                 for a in e['args'][:1]:
                     tgt = None
+                    def is_inner(pl):
+                        # Members.inner reached through self, through a closure capture, or through the `self` a helper
+                        # was handed by such a closure
+                        return pl == q.self_field('inner') or q.field_path(pl)[1][-1:] == ['inner'] or \
+                            (pl[0] == 'deref' and (q.upvar_of(b, pl[1]) or '').endswith('inner'))
                     if a[0] == 'ref' and a[2]:
                         pl = a[1]
-                        if pl == q.self_field('inner'):
-                            tgt = 'inner'
-                        elif pl[0] == 'deref' and (q.upvar_of(b, pl[1]) or '').endswith('inner'):
+                        if is_inner(pl):
                             tgt = 'inner'
                         elif pl[0] == 'deref' and pl[1][0] == 'call' and calls[pl[1][1]]['res'].endswith('DerefMut>::deref_mut'):
                             inner = calls[pl[1][1]]['args'][0]
-                            if inner[0] == 'ref' and (inner[1] == q.self_field('inner') or
-                                                      (inner[1][0] == 'deref' and (q.upvar_of(b, inner[1][1]) or '').endswith('inner'))):
+                            if inner[0] == 'ref' and is_inner(inner[1]):
                                 tgt = 'inner'
                     if tgt:
                         nm = (e['res'] or e['decl'])
@@ -47,7 +49,7 @@ def r1_growth(ctx, f, rep):
     rep.check(set(mutators) <= allowed, 'C09-R1', 'member::Members', 'mutators of Members.inner are push/swap/shuffle/'
               'swap_remove/iter_mut only', construct='inner-mutators',
               facts={k: sorted(v) for k, v in mutators.items()})
-    sites = {(b.nname, e['block']) for b, e in pushes}
+    sites = {(e['body'], e['block']) for b, e in pushes}
     APPLY = 'member::Members::apply'
     rep.check(len(sites) == 1 and all(APPLY in (b.parent, b.nname) for b, e in pushes), 'C09-R1',
               APPLY, 'single growth site, inside Members::apply (or its fallback closure)',
